@@ -37,6 +37,11 @@ def cases(tier, seed):
         if cfg["env"] == "ffsp" and cfg.get("tmax", 6) <= 6:
             for r in range(max(2, reps // 3)):
                 out.append(dict(kind="ffsp_pomo", cfg=cfg, B=rnd.choice([1, 3, 4]), starts=rnd.choice([2, 6]), s=rnd.randrange(10**6)))
+    # every fourth case decodes the same instance object twice without cloning it (evaluate a batch, evaluate it again):
+    # the monitors watch the second episode
+    for i, c_ in enumerate(out):
+        if i % 4 == 3:
+            c_["reuse"] = True
     return out
 
 
